@@ -36,6 +36,11 @@ def gen_variant_case(rng, with_pm=True):
             "repair": rng.choice(list(REPAIR_NAMES)),
             "xl": enc(xl), "xu": enc(xu), "kinds": kinds, "X": enc(X), "ranks": ranks,
             "pm": bool(with_pm and rng.random() < 0.15), "seed": rng.randrange(2 ** 31)}
+    if rng.random() < 0.12:
+        # integer-coded population on an integral box (decision vectors stored as int64; offspring are real-valued)
+        lo = np.array([float(rng.randint(-6, 0)) for _ in range(v)]); hi = lo + np.array([float(rng.randint(0, 9)) for _ in range(v)])
+        Xi = np.array([[float(rng.randint(int(lo[j]), int(hi[j]))) for j in range(v)] for _ in range(n)])
+        case.update(xl=enc(lo), xu=enc(hi), X=enc(Xi), kinds=["integral"] * v, xdtype="int64", pm=False)
     if rng.random() < 0.25:
         case["rand_values"] = [float(rng.choice([0.0, gens.ONE_M, 0.5, 2.0 ** -53, rng.random()])).hex() for _ in range(13)]
     return case
@@ -55,7 +60,7 @@ def run_variant(case):
     variant = "DE/%s/%d/%s" % (case["sel"], case["y"], case["cx"])
     dv = DifferentialVariant(variant=variant, CR=float.fromhex(case["CR"]), F=F, gamma=case["gamma"], de_repair=case["repair"],
                              genetic_mutation=PM() if case["pm"] else None)
-    pop = Population.new("X", X.copy())
+    pop = Population.new("X", X.astype(case["xdtype"]) if "xdtype" in case else X.copy())
     for ind, r in zip(pop, case["ranks"]):
         if r is not None:
             ind.set("rank", r)
@@ -96,7 +101,7 @@ class C01(Check):
     ID = "C01"
     IMPORTS = "From PV Require Import Model.Repair Model.Mutate Model.Cross Model.Select Model.Variant."
     RULE = ("DifferentialVariant(variant, CR, F, gamma, de_repair[, PM]).do on bounded problems with in-box parents (15% of coordinates on each bound; "
-            "zero-width / 1-ulp / tiny / asymmetric / large ranges), all 6 selections x 1..3 differences x bin/exp x 4 repairs, F up to 7, gamma up to 1.9, "
+            "zero-width / 1-ulp / tiny / asymmetric / large ranges; 12% integer-coded int64 populations on integral boxes), all 6 selections x 1..3 differences x bin/exp x 4 repairs, F up to 7, gamma up to 1.9, "
             "recorded and boundary-scripted draws; the whole pipeline (selection -> mutation -> repair -> crossover) is compared bit-exactly with the model, "
             "PM (if any) is an oracle whose output is checked against the box; non-trivial = at least one repair draw or a tiny/zero range; distinct by hash")
     ASSUMPTIONS = ["exact-arithmetic theorem (Q): rounding in bounce-back/rand-init is covered only by the bit-exact runs plus the float box check on every offspring",
